@@ -282,7 +282,7 @@ Section Alpha.
       cbn [ren_guard g_callee g_pos]. rewrite IH1.
       destruct (visited g fe al outer) eqn:Ev; cbn [andb]; [|split; [reflexivity | discriminate]].
       rewrite (callee_sig_rel gd outer Hgd Ev). split; [reflexivity|]. intros _.
-      destruct (callee_sig g fe al (g_callee gd)) as [sg|]; [destruct (Nat.ltb (g_pos gd) (length sg)); [reflexivity | now apply IH2] | now apply IH2].
+      destruct (callee_sig g fe al (g_callee gd)) as [sg|]; [destruct (Nat.ltb (g_pos gd) (length (matched sg))); [reflexivity | now apply IH2] | now apply IH2].
     Qed.
 
     Lemma use_rel u : In u us -> occ_ok (u_occ u) -> guards_ok us (u_guards u) ->
